@@ -21,6 +21,7 @@ What extraction changes in a function (complete list; everything else is token-f
   E2  leading `pub` dropped; the fn is placed wherever the directive stands (trait impls are flattened)
   E2b the return type `-> T` is written `-> (r: T)` (names the result for ensures clauses)
   E3  `format!(..)` -> `verif_msg()`;  `.to_string()` on a &'static str table entry is kept as is
+  E8  `x %= e;` / `x /= e;` on an integer local -> `x = x % (e);` (semantics-preserving desugaring)
   E5  the clauses above are inserted at the anchored positions
 Any lost anchor raises ScanError (exit 2).
 """
@@ -89,6 +90,18 @@ class Extraction:
                 repl.append((t.start, toks[e].end, 'verif_msg()'))
                 dropped.append('format!')
         text = s.text
+        # E8: `x %= e;` / `x /= e;` on a local are written `x = x % (e);` (Verus rejects the compound forms on signed
+        # machine integers; Rust defines them as exactly this for primitive integers)
+        for j in range(it.body_open_k, it.toks_hi - 2):
+            t = toks[j]
+            if t.kind == 'id' and toks[j + 1].kind == 'punct' and toks[j + 1].text in '%/' and toks[j + 2].text == '=' \
+                    and toks[j + 1].end == toks[j + 2].start and toks[j - 1].text in (';', '{', '}'):
+                e = j + 3
+                while toks[e].text != ';':
+                    e += 1
+                expr = text[toks[j + 3].start:toks[e].start]
+                repl.append((t.start, toks[e].start, '%s = %s %s (%s)' % (t.text, t.text, toks[j + 1].text, expr.strip())))
+                dropped.append('compound %s=' % toks[j + 1].text)
         # E2b: name the return value `r` so that ensures clauses can refer to it: `-> T` becomes `-> (r: T)`
         depth = 0
         for j in range(it.kw_tok, it.body_open_k):
